@@ -1,4 +1,4 @@
 SPECIFICATION Spec
 CONSTANT MaxChain = 3
-INVARIANTS PathShaped Emit EmitNames
+INVARIANTS PathShaped Emit EmitNames EmitImported
 CHECK_DEADLOCK FALSE
